@@ -96,6 +96,7 @@ class Driver:
                     fault.root_failed = True
                 raise
 
+        w.env._perm = None            # the (unspecified) directory listing order may differ from build to build
         if fault is not None:
             fault.arm(w.env, si)
         try:
@@ -133,6 +134,7 @@ class Driver:
         si = Side(w, w.fs, False, prog)
         if not w.bound:
             w.bind()
+        w.env._perm = None
         try:
             v = self.FileBuilder.build_versioned(
                 w.cache, self.build_name, versions or {}, lambda b: run_body(b, prog.body, si))
